@@ -229,6 +229,23 @@ func check(c Case) error {
 		if e.Index != errIdx {
 			return harness.Failf("C15/out-of-range-error", "error names index %d, the offending update has index %d", e.Index, errIdx)
 		}
+		// the failed call loses nothing: every update stamped after t is still
+		// listed, in its original order
+		var later []Upd
+		for _, u := range us {
+			if u.TS > c.T {
+				later = append(later, u)
+			}
+		}
+		k := 0
+		for _, u := range gotPending {
+			if k < len(later) && eqPending(osm.Updates{u}, []Upd{later[k]}) == "" {
+				k++
+			}
+		}
+		if k != len(later) {
+			return harness.Failf("C15/pending-lost-on-error", "ApplyUpdatesUpTo(t=%d) failed on index %d; afterwards %d of the %d updates stamped after t are still listed in order (update list now has %d entries)", c.T, errIdx, k, len(later), len(gotPending))
+		}
 	} else {
 		if err != nil {
 			return harness.Failf("C15/unexpected-error", "ApplyUpdatesUpTo failed: %v", err)
